@@ -29,6 +29,21 @@ def parseOp (t : List String) : Option Op :=
   | ["deepcopy", u] => do pure (.deepCopy (← nat? u))
   | _ => none
 
+/-- last token of a line with an iterable argument: the form in which it is handed over → is it one-shot?
+    (`@live`: a generator reading the edited list lazily; iterated once, before anything changes, it yields the
+    units named on the line) -/
+def formOneShot? : String → Option Bool
+  | "@list" | "@tuple" | "@seqabc" | "@iterable" | "@getitem" => some false
+  | "@gen" | "@iter" | "@map" | "@rev" | "@chain" | "@live" => some true
+  | _ => none
+
+def splitForm (t : List String) : List String × Option Bool :=
+  match t.getLast? with
+  | some f => match formOneShot? f with
+    | some b => (t.dropLast, some b)
+    | none => (t, none)
+  | none => (t, none)
+
 def showOut : Out → String
   | .ok => "ok"
   | .indexError => "IndexError"
@@ -68,9 +83,15 @@ def handle (st : TState) (line : String) : TState × String :=
   | ["ofkind", s, k] => match nat? s, nat? k with
     | some s, some k => (st, showNatList (ofKind st s k))
     | _, _ => (st, "bad-op")
-  | t => match parseOp t with
-    | some op => let (st', o) := step st op; (st', showOut o)
-    | none => (st, "bad-op")
+  | t => match splitForm t with
+    | (t', some oneShot) => match parseOp t' with
+      | some op => match op.arg? with
+        | some us => let ((st', o), _) := stepSrc st op (Src.fresh us oneShot); (st', showOut o)
+        | none => (st, "bad-op")
+      | none => (st, "bad-op")
+    | (_, none) => match parseOp t with
+      | some op => let (st', o) := step st op; (st', showOut o)
+      | none => (st, "bad-op")
 
 partial def loop (h : IO.FS.Stream) (st : TState) : IO Unit := do
   let line ← h.getLine
